@@ -148,6 +148,7 @@ def run(rep):
         bad = []
         if not e['orth']:
             raise core.Machinery('point group operation not orthogonal')
+        gen.perturb(traj, rng)
         o = Orientations(traj, 'N', 'H')
         vec = np.array(o.vectors, dtype=float, copy=True)
         T, nb = vec.shape[0], vec.shape[1]
